@@ -1,4 +1,5 @@
 import Hgxv.Proofs.C05WF
+import Hgxv.Proofs.C05LinkC01
 /-! # C05 — sub-hypergraph extraction and copy are faithful and leave the source untouched
 
 Property theorems about the model `Hgxv/Model/C05.lean` (`Content κ`: weighted flag, nodes with metadata,
@@ -265,3 +266,14 @@ example : edgesSub exD none (some 3) false false =
 example : AL.get? (runSlots (extractInto [(0, exSrc)] 0 1 (fun x => some (copy x)))
     [(1, .removeEdge [4]), (0, .setWeight [4] 12), (1, .addNode 30 [])]) 0
     = some (run exSrc [.setWeight [4] 12]) := by decide
+
+/-! ## Link to the full model of `Hypergraph` (C01)
+
+The content-level semantics used in this file is not an independent invention: one call of each modelled mutator on the
+abstract spec of the complete `Hypergraph` model (`C01.Spec`, which `C01_refines` proves equal to the concrete
+id-indexed store for every history) is exactly the C05 step on its content, with the same accept/reject verdict. -/
+theorem C05_link_C01 (a : C01.Spec) (op : C01.Op) (op' : Op UKey) (hl : liftOp op = some op')
+    (hwf : WF (ofSpec a)) :
+    ofSpec (C01.Spec.apply a op).1 = step (ofSpec a) op' ∧
+    ((C01.Spec.apply a op).2 = .ok ↔ (apply? (ofSpec a) op').isSome = true) :=
+  link_C01 a op op' hl hwf
